@@ -328,9 +328,9 @@ func TestVerifC05Tcp(t *testing.T) {
 	st := VOpenStream("c05tcp")
 	defer st.Close()
 	stats := NewVStats()
-	n := 160
+	n := 300
 	if VThorough() {
-		n = 1600
+		n = 6000
 	}
 	for i := 0; i < n; i++ {
 		c := c05GenCopyCase(r, stats)
